@@ -52,7 +52,7 @@ import glob,re
 byw={1:[],2:[],3:[],4:[],5:[]}
 for f in sorted(glob.glob('/verif/.build/par_results_*.txt')):
     w=None
-    for line in open(f):
+    for line in open(f, errors='replace'):
         if line.startswith('WAVE '):
             w=int(line.split()[1]); continue
         if line.startswith('PIPELINE-DONE'): continue
